@@ -59,6 +59,53 @@ Example newton_late_stall_witness :
   vsub NumF [0x1.1436adb8bac71p+17%float] [0x1.5fd7fe1796495p-37%float] = [0x1.1436adb8bac71p+17%float].
 Proof. vm_compute. reflexivity. Qed.
 
+(* 4a. the line-search branch of newton_min (the only one the public RunMin reaches; line search = ORACLE): a step that
+      rounds away after scaling by the alpha the line search returned is LOUD at the pass it occurs (`line search failed`),
+      an error of the line search is returned at once, and consecutive iterates of every run differ — every carrier, oracle
+      and cap.  (Former finding F-C20-NEWTON-MIN-LS-STALL, repaired in /repo: the test was missing on this branch.) *)
+Theorem newton_ls_stall_is_loud : forall A (N : Num A) (E : Type) eval conv isnan direction search cap i
+    (x1 t1 : list A) (alpha : A) (e : E),
+  conv e = false -> isnan e = false -> direction e = Some t1 ->
+  search x1 t1 = Some alpha ->
+  all_eqb N x1 (vsub N x1 (vscale N alpha t1)) = true ->
+  newton_outer E eval conv isnan direction (nstep_ls N search) (S cap) i x1 e = NLineSearchFailed x1 i.
+Proof. exact (@newton_ls_stall_is_loud_l). Qed.
+Theorem newton_ls_search_error_is_loud : forall A (N : Num A) (E : Type) eval conv isnan direction search cap i
+    (x1 t1 : list A) (e : E),
+  conv e = false -> isnan e = false -> direction e = Some t1 ->
+  search x1 t1 = None ->
+  newton_outer E eval conv isnan direction (nstep_ls N search) (S cap) i x1 e = NSearchErr x1.
+Proof. exact (@newton_ls_search_error_is_loud_l). Qed.
+Theorem newton_ls_iterates_move : forall A (N : Num A) (E : Type) eval conv isnan direction search cap
+    (x1 : list A) (e : E),
+  chain_moves N (newton_iterates E eval conv isnan direction (nstep_ls N search) cap x1 e) = true.
+Proof. exact (@newton_ls_iterates_move_l). Qed.
+(* the witness of the former finding in binary64: gradient x*x - 2e10, Hessian 2x, direction g / H, alpha = 1, from
+   x0 = 1 the run reaches a binary64 neighbour of sqrt 2e10 after 22 steps: the step rounds away, the residual is not
+   converged; with the test the run returns `line search failed` there, without it the same run uses up its cap *)
+Definition ls_eval (x : list float) : option (float * float) :=
+  match x with [a] => Some ((a * a - 20000000000)%float, (2 * a)%float) | _ => None end.
+Definition ls_conv (e : float * float) := PrimFloat.ltb (PrimFloat.abs (fst e)) 0x1.5798ee2308c3ap-27%float.
+Definition ls_isnan (e : float * float) := negb (PrimFloat.eqb (fst e) (fst e)).
+Definition ls_dir (e : float * float) := Some [(fst e / snd e)%float].
+Definition ls_search (x t : list float) : option float := Some 1%float.
+Example newton_ls_stall_is_loud_witness :
+  newton_run (float * float) ls_eval ls_conv ls_isnan ls_dir (nstep_ls NumF ls_search) None 1000 [1%float]
+  = NLineSearchFailed [0x1.1436ad992f250p+17%float] 22
+  /\ newton_run (float * float) ls_eval ls_conv ls_isnan ls_dir (nstep_ls_notest NumF ls_search) None 1000 [1%float]
+     = NCap [0x1.1436ad992f250p+17%float].
+Proof. vm_compute. split; reflexivity. Qed.
+(* the regression class refuted (the branch as it was before the repair): without the test a stalled state uses up ANY cap *)
+Theorem newton_ls_no_stall_test_spins_refuted : forall A (N : Num A) (E : Type) eval conv isnan direction search
+    (x1 t1 : list A) (alpha : A) (e : E),
+  eval x1 = Some e -> conv e = false -> isnan e = false -> direction e = Some t1 ->
+  search x1 t1 = Some alpha -> vsub N x1 (vscale N alpha t1) = x1 ->
+  forall cap i, exists j,
+    newton_outer E eval conv isnan direction (nstep_ls_notest N search) cap i x1 e = NCap x1
+    /\ length (newton_iterates E eval conv isnan direction (nstep_ls_notest N search) cap x1 e) = cap
+    /\ j = (i + cap)%nat.
+Proof. exact (@newton_ls_notest_spins_l). Qed.
+
 (* 4b. what the stagnation test does NOT catch (the code AS WRITTEN, refuted): an unconstrained run that reaches a pair of
       points mapped to each other by the Newton step (neither converged) uses up ANY cap — every carrier and oracle *)
 Theorem newton_period2_cycle_spins_refuted : forall A (N : Num A) (E : Type) eval conv isnan direction fuel cc
